@@ -6,8 +6,7 @@ macro_rules! ensure { ($cond:expr, $($t:tt)*) => { if !$cond { return Err(mk_inv
 verus! {
 //@include shims/time.rs
 //@include shims/std_i64.rs
-pub assume_specification<T: Ord> [std::cmp::min] (a: T, b: T) -> (r: T)
-    ensures r == (if a.cmp_spec(&b) == core::cmp::Ordering::Greater { b } else { a });
+//@include shims/std_gaps.rs
 
 // error value built by the `ensure!` shim (n0_error's macro builds it from the struct literal + location)
 pub struct InvalidBucketConfig;
@@ -86,7 +85,7 @@ impl Bucket {
 //@- let now = time::Instant::now();
 //@| broadcast use time::time_axioms;
 //@ins before 1
-//@- if refill_periods == 0 {
+//@- if refill_periods 
 //@| proof {
 //@|     let el = if now@ >= self.last_fill@ { now@ - self.last_fill@ } else { 0 };
 //@|     let pm = self.refill_period@ / 1_000_000;
@@ -111,13 +110,13 @@ impl Bucket {
 //@|     }
 //@| }
 //@ins after 1
-//@- .saturating_add(self.refill.saturating_mul(refill_periods as i64));
+//@- .saturating_add(
 //@| proof {
 //@|     let pr = periods_at(*old(self), now@) * old(self).refill;
 //@|     assert(self.fill == clamp_i64(old(self).fill + clamp_i64(pr)));
 //@| }
 //@ins after 1
-//@- self.fill = std::cmp::min(self.fill, self.max);
+//@- self.fill = std::cmp::
 //@| proof {
 //@|     let pr = periods_at(*old(self), now@) * old(self).refill;
 //@|     assert(self.fill == min_int(old(self).max as int, old(self).fill + min_int(pr, i64::MAX as int)));
@@ -142,10 +141,10 @@ impl Bucket {
 //@| let ghost mid = *self;
 //@| let ghost now0 = choose|now: int| 0 <= now <= time::now_max() && refill_step(*old(self), mid, now);
 //@ins before 1
-//@- if self.fill > 0 {
+//@- if self.fill 
 //@| proof { if self.fill > 0 { assert(consume_step(mid, *self, bytes0, Ok::<(), time::Instant>(()))); } }
 //@ins before 1
-//@- Err(self.last_fill + periods_needed * self.refill_period)
+//@- Err(self.last_fill +
 //@| proof {
 //@|     assert(periods_needed as int * self.refill_period@ <= 0xffff_ffff * (0x1_0000_0000 * 1_000_000)) by (nonlinear_arith)
 //@|         requires 0 <= periods_needed <= 0xffff_ffff, 0 <= self.refill_period@ <= 0x1_0000_0000 * 1_000_000;
